@@ -88,7 +88,7 @@ REGISTRY = {
     "C08": dict(
         packs=["c08"], level="proof",
         replay=dict(script="replay/c08.py", args=["3"], timeout=600),
-        bounded=[dict(name="cross-process-seed-and-order", script="replay/c08.py", args=["3"],
+        bounded=[dict(name="audit-scenarios", script="replay/found.py", args=["C08", "{tier}"], timeout=1500, bound="scenarios contributed by audit sub-agents (replay/found/MANIFEST.json): repaired defects must stay repaired, recorded findings are probed"), dict(name="cross-process-seed-and-order", script="replay/c08.py", args=["3"],
                       bound="25 values (nested dicts/sets, mixed keys, decimals, equal distinct strings) hashed in 6 fresh interpreters (3 PYTHONHASHSEEDs x 2 construction orders) "
                             "against a reference process; 5 discrimination groups; all pairs of a recursive universe of ~1000 builtin values (equal digests <=> equal type-aware canonical form)"),
                  dict(name="numpy-hash-discrimination", script="replay/c08.py", args=["numpy"], timeout=900, python="/verif/.venv_np/bin/python",
